@@ -1,4 +1,4 @@
-import LyModel.Iff.LemmasRange
+import LyModel.Iff.LemmasRangeInv
 /-!
 # C11 — range / length restrictions
 
@@ -14,7 +14,8 @@ def int8 : RType := { uns := false, lo := -128, hi := 127 }
 /-! ## value validation = membership in the union of the parts -/
 
 /-- `lyplg_type_validate_range` accepts exactly the members of the union of the parts — for every ascending part list
-and every value. (Soundness needs no hypothesis; completeness needs the ascending order the walk relies on.) -/
+(neighbours may even share an end point) and every value. (Soundness needs no hypothesis; completeness needs the
+ascending order the walk relies on.) -/
 theorem validate_range_correct (parts : List Part) (hne : parts ≠ []) (hasc : Ascending parts) (v : Int) :
     validate parts v = true ↔ ∃ p ∈ parts, p.min ≤ v ∧ v ≤ p.max :=
   ⟨validate_sound parts v hne, validate_complete parts v hasc⟩
@@ -127,5 +128,83 @@ theorem range_parse_safe_partial (fx : RFix) (t : RType) (base : List Part) (arg
 
 /-- with fixes/F30.diff the witness `min||` is a syntax error -/
 example : compileRange { f30 := true } int8 (some [⟨1, 10⟩]) [0x6d, 0x69, 0x6e, 0x7c, 0x7c] = .error .valid := rfl
+
+/-! ## with the two repairs: every argument -/
+
+/-- **With fixes/F30.diff and fixes/F51.diff**, for EVERY type, base and byte string: if the part parser accepts, its
+part counter equals the number of parts and the parts are ascending (loop invariant
+`parts_done ≤ COUNT(parts) ≤ parts_done + 1`, which the unrepaired code breaks exactly at `|` — F30 — and where a new
+part is opened — F51). -/
+theorem range_parse_invariant_fixed (fx : RFix) (h30 : fx.f30 = true) (h51 : fx.f51 = true) (t : RType)
+    (base : Option (List Part)) (arg : Bytes) (parts : List Part) (done : Nat)
+    (h : loop fx t base (arg.length + 1) arg {} = .ok (parts, done)) :
+    done = parts.length ∧ Ascending parts ∧ parts ≠ [] :=
+  loop_inv fx h30 h51 t base _ arg {} parts done Inv_init h
+
+/-- … hence the full-strength statements hold: a derived restriction only narrows, -/
+theorem range_subset_sound_fixed (fx : RFix) (h30 : fx.f30 = true) (h51 : fx.f51 = true) : RangeSubsetSound fx := by
+  intro t base arg parts hc p hp
+  cases hl : loop fx t (some base) (arg.length + 1) arg {} with
+  | error e => simp [compileRange, hl] at hc
+  | ok r =>
+    obtain ⟨parts', done⟩ := r
+    have hpe : parts' = parts := by
+      unfold compileRange at hc
+      rw [hl] at hc
+      simp only [] at hc
+      split at hc <;> simp at hc
+      exact hc
+    subst hpe
+    exact range_subset_sound_partial fx t base arg parts' done hl
+      (range_parse_invariant_fixed fx h30 h51 t (some base) arg parts' done hl).1 hc p hp
+
+/-- the parser never reads outside its arrays, -/
+theorem range_parse_safe_fixed (fx : RFix) (h30 : fx.f30 = true) (h51 : fx.f51 = true) : RangeParseSafe fx := by
+  intro t base arg
+  cases base with
+  | none =>
+    unfold compileRange
+    cases hl : loop fx t none (arg.length + 1) arg {} with
+    | error e =>
+      -- the part parser itself never reports an out-of-bounds access
+      simp only [ne_eq, Except.error.injEq]
+      exact loop_err fx t none _ arg {} e hl
+    | ok r => simp
+  | some b =>
+    cases hl : loop fx t (some b) (arg.length + 1) arg {} with
+    | error e =>
+      unfold compileRange
+      rw [hl]
+      simp only [ne_eq, Except.error.injEq]
+      exact loop_err fx t (some b) _ arg {} e hl
+    | ok r =>
+      obtain ⟨parts, done⟩ := r
+      exact range_parse_safe_partial fx t b arg parts done hl
+        (Nat.le_of_eq (range_parse_invariant_fixed fx h30 h51 t (some b) arg parts done hl).1)
+
+/-- and every accepted restriction validates values by membership in the union of its parts. -/
+theorem range_validate_fixed (fx : RFix) (h30 : fx.f30 = true) (h51 : fx.f51 = true) (t : RType)
+    (base : Option (List Part)) (arg : Bytes) (parts : List Part) (hc : compileRange fx t base arg = .ok parts) (v : Int) :
+    validate parts v = true ↔ ∃ p ∈ parts, p.min ≤ v ∧ v ≤ p.max := by
+  cases hl : loop fx t base (arg.length + 1) arg {} with
+  | error e => simp [compileRange, hl] at hc
+  | ok r =>
+    obtain ⟨parts', done⟩ := r
+    have hinv := range_parse_invariant_fixed fx h30 h51 t base arg parts' done hl
+    have hpe : parts' = parts := by
+      unfold compileRange at hc
+      rw [hl] at hc
+      simp only [] at hc
+      cases base with
+      | none => simpa using hc
+      | some b =>
+        simp only [] at hc
+        split at hc <;> simp at hc
+        exact hc
+    subst hpe
+    exact validate_range_correct parts' hinv.2.2 hinv.2.1 v
+
+example : compileRange { f30 := true, f51 := true } int8 (some [⟨1, 10⟩]) [0x32, 0x2e, 0x2e, 0x35, 0x7c, 0x37] =
+    .ok [⟨2, 5⟩, ⟨7, 7⟩] := rfl
 
 end LyModel.Props.C11
